@@ -210,10 +210,12 @@ func (self *bestFit) predict(balance Kilometres,start epochDays) (epochDays,erro
 		}
 	}
 	
-	// Return choice if we have made one or otherwise return
-	// an answer assuming horizontal line.
-	if choice == math.MaxFloat64 {
-		return epochDays(choice), ENOVALIDPREDICTION
+	// Return choice if we have made one that is a representable day. There is
+	// no valid prediction otherwise: nothing was found, or the last share is
+	// zero or so small that the estimate is infinite, not a number or beyond
+	// the last day an EpochTime can hold.
+	if !(choice < float64(math.MaxInt64/SecondsInDay)) {
+		return epochDays(math.MaxInt64), ENOVALIDPREDICTION
 	} else {
 		return epochDays(math.Ceil(choice)), nil
 	}
